@@ -1460,7 +1460,10 @@ func call(n *node) {
 					in[i].Set(value)
 				}
 
-				go callf(in)
+				go func(in []reflect.Value) {
+					defer goGuard(n, f)()
+					callf(in)
+				}(in)
 				return tnext
 			}
 
@@ -1534,7 +1537,10 @@ func call(n *node) {
 
 		// Execute function body
 		if goroutine {
-			go runCfg(def.child[3].start, nf, def, n)
+			go func() {
+				defer goGuard(n, f)()
+				runCfg(def.child[3].start, nf, def, n)
+			}()
 			return tnext
 		}
 		runCfg(def.child[3].start, nf, def, n)
@@ -1551,6 +1557,18 @@ func call(n *node) {
 			return fnext
 		}
 		return tnext
+	}
+}
+
+// goGuard returns the function deferred by the goroutine of a go statement executed in
+// frame f. A panic in a goroutine of a cancelled evaluation stops there: the deferred
+// functions which could have recovered it do not run any more, and it must not reach the
+// top of the goroutine, where it would terminate the host program.
+func goGuard(n *node, f *frame) func() {
+	return func() {
+		if r := recover(); r != nil && f.runid() == n.interp.runid() {
+			panic(r)
+		}
 	}
 }
 
@@ -1718,7 +1736,10 @@ func callBin(n *node) {
 			for i, v := range values {
 				in[i] = fixArg(getBinValue(getMapType, v, f))
 			}
-			go callFn(fixArg(value(f)), in)
+			go func(fn reflect.Value, in []reflect.Value) {
+				defer goGuard(n, f)()
+				callFn(fn, in)
+			}(fixArg(value(f)), in)
 			return tnext
 		}
 	case fnext != nil:
